@@ -27,6 +27,12 @@ ASSUMPTIONS = [
     "parse() of ']' and '}' payloads is proved per loop iteration with pop() abstracted by its contract; a TypeError from an unhashable dict key "
     "is not modelled symbolically (FlowReader.stream catches TypeError; covered by T2)",
     "Flow.from_state / compat.migrate_flow are abstracted in the stream contract to 'returns a flow or raises' with the exception type as a case",
+    "tnetstring.split is replaced by its own contract (scenario split) inside pop.framing and loads.inverts_enc (modular verification)",
+    "_rdumpq's recursive calls are replaced by its own contract (pushes some bytes B left of the queue, returns size + len(B)) in rdumpq.dict_record_is_wellformed",
+    "valid lemmas given to the solvers as instances: value of a non-empty digit string is >= 0; b''.decode() == ''; pure ASCII is valid UTF-8",
+    "loads.inverts_enc covers None/True/False and bytes/ASCII-str payloads of length 0,1,9,10,11; the general scalar round trip is the composition of "
+    "dumps.scalars + pop.framing + parse.scalars with int(str(n)) == n and ':' not in str(n) (library facts; T2 checks the composition)",
+    "metadata values are restricted to round-trippable plain data: no tuples (written as lists), no NaN (not equal to itself), no lone surrogates (not UTF-8 encodable)",
 ]
 
 
@@ -392,6 +398,18 @@ def s_pop(vc):
 TAGS = {",": 44, ";": 59, "#": 35, "^": 94, "!": 33, "~": 126}
 
 
+def is_ascii(vc, s):
+    if vc.mode == "native":
+        return all(ord(c) < 128 for c in s)
+    import z3
+    return SBool(z3.InRe(s.t, z3.Star(z3.Range(chr(0), chr(127)))))
+
+
+def ascii_bytes(vc, s):
+    """UTF-8 encoding of an ASCII str: the same code points"""
+    return s.encode("utf8") if vc.mode == "native" else SBytes(s.t)
+
+
 def decode_utf8(vc, b):
     if vc.mode == "native":
         return b.decode("utf8")
@@ -469,16 +487,10 @@ def s_roundtrip(vc):
     L = vc.case("payload_length", [0, 1, 9, 10, 11]) if kind in ("bytes", "str") else 0
     v = mk_scalar(vc, kind, "v")
     if kind == "str":
-        vc.assume(encodable(vc, v))
+        vc.assume(is_ascii(vc, v))       # non-ASCII text: the codec is an uninterpreted library function (T2 covers it)
     if kind in ("bytes", "str"):
-        payload = v if kind == "bytes" else utf8(vc, v)
+        payload = v if kind == "bytes" else ascii_bytes(vc, v)
         vc.assume(len_(payload) == L)
-        if kind == "str" and vc.mode == "sym":
-            import z3
-            from pyvc import lib
-            vc.assume(SBool(lib.uf("decodable_utf-8", z3.StringSort(), z3.BoolSort())(payload.t)))
-            vc.assume(SStr(lib.uf("decode_utf-8_strict", z3.StringSort(), z3.StringSort())(z3.StringVal(""))) == "")
-            vc.note("lemma", "the UTF-8 encoding of a str is decodable (codec round trip, library); b''.decode() == ''")
         data = str(L).encode() + b":" + payload + (b"," if kind == "bytes" else b";")     # = enc(v) for this length
     else:
         data = enc(vc, v)
@@ -492,8 +504,6 @@ def s_roundtrip(vc):
         vc.ensure("roundtrip.value", isnone(r))
     elif kind in ("true", "false"):
         vc.ensure("roundtrip.value", vc.eq(r, kind == "true"))
-    elif kind == "str":
-        vc.ensure("roundtrip.value", vc.eq(r, decode_utf8(vc, utf8(vc, v))))   # = v by the codec's own round trip (library)
     else:
         vc.ensure("roundtrip.value", vc.eq(r, v))
 
@@ -543,11 +553,31 @@ def s_stream_errors(vc):
     out = vc.call(IO + ":FlowReader.stream", reader, on_yield=lambda item: yielded.append(item))
     vc.ensure("invalid_record.nothing_yielded", len(yielded) == 0)
     cond = (not out.ok) and issubclass(out.raised_type(), _cls(FRE))
-    vc.ensure_kf("invalid_record.only_flow_read_exception", cond, "KF-C36-1", exc in (KeyError, AttributeError, AssertionError))
+    vc.ensure("invalid_record.only_flow_read_exception", cond)  # was recorded finding KF-C36-1, repaired in /repo (see known_findings.d)
 
 
 # =============================================================================================
 # T2 (bounded)
+
+
+ATTR_PATHS = ["id", "comment", "marked", "metadata", "is_replay", "intercepted", "timestamp_created", "error.msg", "error.timestamp",
+              "client_conn.peername", "client_conn.sockname", "client_conn.sni", "client_conn.alpn", "client_conn.alpn_offers", "client_conn.cipher_list",
+              "client_conn.tls_version", "client_conn.timestamp_start", "client_conn.proxy_mode", "client_conn.id",
+              "server_conn.peername", "server_conn.sockname", "server_conn.address", "server_conn.via", "server_conn.error", "server_conn.transport_protocol",
+              "request.content", "request.headers.fields", "request.trailers.fields", "request.host", "request.port", "request.method", "request.path",
+              "response.content", "response.headers.fields", "response.status_code", "response.reason", "websocket.close_code", "websocket.close_reason"]
+
+
+def _attr(o, path):
+    """attribute value along a dotted path (None when a link is missing) - compared on the live objects, not on get_state()"""
+    for p in path.split("."):
+        if o is None or (not hasattr(o, p) and not (hasattr(o, "data") and hasattr(o.data, p))):
+            return None
+        try:
+            o = getattr(o, p)
+        except Exception:  # noqa: BLE001  (e.g. Request.content decoding of an exotic body)
+            o = getattr(o.data, p)
+    return o
 
 
 def _norm_seq(x):
@@ -624,7 +654,8 @@ def _variants(kind, rnd):
                 add(f"response.{name}={val!r}", lambda f, n=name, v=val: setattr(f.response.data, n, v))
         if kind == "ws":
             add("ws.messages", lambda f: setattr(f.websocket, "messages", [
-                websocket.WebSocketMessage(Opcode.TEXT, True, uni.encode(), 1.0), websocket.WebSocketMessage(Opcode.BINARY, False, blob, 2.0, True, True),
+                websocket.WebSocketMessage(Opcode.TEXT, True, uni.encode(), 1.0), websocket.WebSocketMessage(Opcode.BINARY, False, blob, 2.0, True, False),
+                websocket.WebSocketMessage(Opcode.BINARY, True, b"inj", 2.5, False, True),
                 websocket.WebSocketMessage(Opcode.TEXT, False, b"", 3)]))
             add("ws.no_messages", lambda f: setattr(f.websocket, "messages", []))
             for name, val in [("closed_by_client", None), ("closed_by_client", True), ("close_code", None), ("close_code", 4999), ("close_reason", None),
@@ -808,6 +839,11 @@ def bounded(tier, seed):
         if len(gs) != len(states) or [type(g) for g in got] != [type(f) for f in flows]:
             b.fail("roundtrip.same_flows_same_order", label, f"{len(gs)} of {len(states)}")
             return
+        for f, g in zip(flows, got):
+            for path in ATTR_PATHS:
+                a, c = _attr(f, path), _attr(g, path)
+                if _norm_seq(a) != _norm_seq(c):
+                    b.fail("roundtrip.attributes_preserved", dict(label, attribute=path), f"{a!r:.200} -> {c!r:.200}")
         for i, (s0, s1) in enumerate(zip(states, gs)):
             if _norm_seq(s0) != _norm_seq(s1):
                 b.fail("roundtrip.state_equal_up_to_sequence_type", label, [k for k in s0 if _norm_seq(s0[k]) != _norm_seq(s1.get(k))])
